@@ -2,10 +2,11 @@
 EXTENDS Purity, Json
 MatchDef == [t \in {"A", "B", "C"} |-> CASE t = "A" -> {1, 2} [] t = "B" -> {2, 3} [] OTHER -> {1, 2, 3}]
 TieDef   == [t \in {"A", "B", "C"} |-> CASE t = "C" -> {1, 3} [] OTHER -> {}]
+MergeDef == [t \in {"A", "B", "C"} |-> CASE t = "B" -> {2, 3} [] OTHER -> {}]
 (* binding (B): call-level histories.  `sched` records call starts and finishes; it is a
    history variable, so this instance is only used with small constants. *)
 VARIABLE sched
-HInit == Init /\ sched = <<>> /\ (~SetOrder => perm = ListOrder)
+HInit == Init /\ sched = <<>> /\ ((~SetOrder /\ ~EdSetOrder) => perm = ListOrder)
 HNext == \E th \in Threads :
            \/ (Call(th) /\ sched' = Append(sched, <<"call", th, txt'[th]>>))
            \/ ((Select(th) \/ Compile(th) \/ Match(th)) /\ UNCHANGED sched)
